@@ -18,7 +18,10 @@ for d in seeded/*/; do
   rc=$?
   ( cd $wt && git checkout -q -- . )
   cls=$(echo "$out" | grep -o 'replay=[^ ]*' | sed 's/.*replays\///; s/-[0-9]*\(-batch\)\?\.json//' | sort -u | tr '\n' ' ')
-  if [ $rc -eq 1 ]; then echo "$id: CAUGHT by $prop ($cls)"; else echo "$id: MISSED by $prop (rc=$rc)"; missed=$((missed+1)); fi
+  known=$(python3 -c "import json; print(int(bool(json.load(open('$d/meta.json')).get('expected_missed'))))")
+  if [ $rc -eq 1 ]; then echo "$id: CAUGHT by $prop ($cls)"
+  elif [ "$known" = 1 ] && [ $rc -eq 0 ]; then echo "$id: NOT DETECTED by $prop -- known limit, see its meta.json and DESIGN 10.6"
+  else echo "$id: MISSED by $prop (rc=$rc)"; missed=$((missed+1)); fi
 done
 git -C /repo worktree remove --force $wt
 echo "missed=$missed"
